@@ -63,13 +63,15 @@ Section Session.
     cbv zeta. splits.
     - eapply WFc_update; [exact HW1| |reflexivity]. intros o2 _. apply upd_ok_clear_pubrel.
     - unfold but_oa in *. cbn. exact B1.
-    - cbn. rewrite keys_update. exact K1.
+    - transitivity (keys (update id (fun o => o <| op_pubrel := None |>) (s_ops s1))); [reflexivity|]. rewrite keys_update. exact K1.
     - cbn. rewrite sumss_update by reflexivity. exact S1.
     - intros i o' Hi. unfold getop in Hi. cbn in Hi. apply lookup_update_inv in Hi.
       destruct Hi as (o2 & Ho2 & [[Hne ->]|[-> ->]]).
-      + exists o2. split; [rewrite <- (O1 i Hne); exact Ho2|]. unfold unb_rel. splits; auto. intros; congruence.
+      + exists o2. split; [rewrite <- (O1 i Hne); exact Ho2|]. unfold unb_rel. splits; auto; intros; congruence.
       + assert (o2 = o1) by (unfold getop in Ho1; congruence). subst o2. exists o. split; [exact Hid|].
         unfold unb_rel. cbn. splits; auto; try congruence. intros _. split; [exact P1|reflexivity].
-    - intros i Hi. unfold getop in *. cbn. apply lookup_none_not_in. rewrite keys_update, K1. apply lookup_none_not_in. exact Hi.
+    - intros i Hi. unfold getop in *.
+      change (lookup i (update id (fun o => o <| op_pubrel := None |>) (s_ops s1)) = None).
+      apply lookup_none_not_in. rewrite keys_update, K1. apply lookup_none_not_in. exact Hi.
   Qed.
 End Session.
